@@ -31,7 +31,7 @@ from props import _reduce_util as U
 PROP = "C28"
 READY = True
 DRIVER = "dm_reduce"
-LEAN_MODULES = ["DaskModel.Props.C28"]
+LEAN_MODULES = ["DaskModel.Props.C28", "DaskModel.Props.C28xChoiceND"]
 CASE_TIMEOUT_S = 40
 LEVEL_TEXT = (
     "PARTIAL. Proved in Lean 4 for the seed/key logic of dask.array.random (no size bound): seed_formula (block b of "
@@ -43,7 +43,9 @@ LEVEL_TEXT = (
     "rs_names_nodup (one generator object threaded through a whole history of calls incl. choice and interleaved "
     "permutations: all names pairwise distinct, in particular for identical successive calls), perm_positions_nodup, "
     "entropy_only_name_collides (refutation of naming by the children's entropy), rs_windows_nodup (RandomState windows), "
-    "choice_no_replace_single_chunk (the guard makes multi-chunk replace=False unreachable). NOT expressible/proved: "
+    "choice_no_replace_single_chunk (the guard makes multi-chunk replace=False unreachable), choice_nd_no_replace_single_block "
+    "(n-d / 0-d size: an accepted replace=False call has exactly one block; old_guard_accepts_multi_block is the refutation of "
+    "the first-axis-only guard, repaired in the repository). NOT expressible/proved: "
     "statistical independence of the streams; 'identical values on every scheduler' is reduced to 'identical graph' "
     "(+ C01) and validated by running sync/threads/processes; distinctness of NumPy's single-block choice is trusted. "
     "The history section reaches every public method of Generator and RandomState (incl. multivariate_hypergeometric, "
@@ -604,8 +606,78 @@ def case_args(ctx, inp):
         ctx.branch("size=None")
 
 
+def case_choicend(ctx, inp):
+    """extension round: `choice` with an n-d / 0-d `size` — the replace/chunks guard of the real `_choice_validate_params`
+    vs `ChoiceND.guardND`, number of block tasks vs `nblocks`, distinctness over the WHOLE output, NumPy's verdict"""
+    import itertools
+    da = _da()
+    from dask.array.random import _choice_validate_params
+    api, seed, pop, size, chunks, replace = inp["api"], inp["seed"], inp["pop"], inp["size"], inp["chunks"], inp["replace"]
+    size_arg = None if size is None else tuple(size)
+    shape = () if size is None else tuple(size)
+    chunks_arg = tuple(tuple(c) for c in chunks)
+    nch = [len(c) for c in chunks]
+    model = ctx.lean(Sym("choicend"), bool(replace), nch)
+    rng = new_rng(da, api, seed)
+    try:
+        out = _choice_validate_params(rng, pop, size_arg, replace, None, 0, chunks_arg)
+        real = [Sym("ok"), [len(c) for c in out[5]], len(list(itertools.product(*out[5])))]
+        if tuple(out[1]) != shape:
+            ctx.fail("choice: normalized size differs", observed=[list(out[1]), list(shape)])
+    except NotImplementedError:
+        real = [Sym("raised")]
+    except IndexError as e:
+        ctx.fail("choice(replace=False) with a 0-d size raised IndexError", observed=str(e))
+        return
+    ctx.eq("choice n-d replace/chunks guard", model, real)
+    multi = any(n > 1 for n in nch)
+    if real[0] == Sym("raised") or model[0] == Sym("raised"):
+        if replace or not multi:
+            ctx.fail("choice raised NotImplementedError outside the multi-chunk replace=False case")
+        ctx.branch("n-d multi-chunk replace=False rejected" + (" (first axis single)" if nch[0] == 1 else ""))
+        return
+    if not replace and multi:
+        ctx.fail("choice(replace=False) accepted a multi-block output (blocks are drawn independently)", observed=nch)
+        return
+    total = int(np.prod(shape)) if shape else 1
+    try:
+        ref = np.random.default_rng(0).choice(pop, size=size_arg, replace=replace)
+        np_ok = True
+    except ValueError:
+        np_ok = False
+    try:
+        x = rng.choice(pop, size=size_arg, replace=replace, chunks=chunks_arg)
+        if len(block_tasks(x)) != model[2]:
+            ctx.fail("choice: number of block tasks differs from the model's nblocks", observed=[len(block_tasks(x)), model[2]])
+        v = np.asarray(x.compute(scheduler="sync"))
+    except ValueError as e:
+        if np_ok:
+            ctx.fail(f"choice raised where NumPy does not: {e}", observed=str(e))
+        ctx.branch("n-d size > population raises")
+        return
+    if not np_ok:
+        ctx.fail("choice returned a sample where NumPy raises (larger than the population, replace=False)", observed=v.tolist())
+        return
+    if v.shape != shape or x.shape != shape or np.shape(ref) != shape:
+        ctx.fail("choice: wrong shape", observed=[list(v.shape), list(x.shape), list(shape)])
+    flat = v.reshape(-1).tolist()
+    if not set(flat) <= set(range(pop)):
+        ctx.fail("choice returned elements outside the population", observed=flat)
+    if not replace:
+        if len(set(flat)) != len(flat):
+            ctx.fail("choice(replace=False) returned a repeated element", observed=v.tolist())
+        ctx.branch("n-d replace=False single block, distinct")
+        if total == pop and sorted(flat) != list(range(pop)):
+            ctx.fail("choice(replace=False, size = population) is not a permutation", observed=flat)
+    v2 = np.asarray(new_rng(da, api, seed).choice(pop, size=size_arg, replace=replace, chunks=chunks_arg).compute(scheduler="threads"))
+    if not np.array_equal(v, v2):
+        ctx.fail("n-d choice with the same seed is not reproducible", observed=[v.tolist(), v2.tolist()])
+    ctx.branch("size=None" if size is None else f"{len(shape)}-d")
+    ctx.branch(api)
+
+
 CASES = {"args": case_args, "hist": case_hist, "perm": case_perm, "gen_calls": case_gen_calls, "rs_calls": case_rs_calls, "values": case_values, "unseeded": case_unseeded,
-         "choice": case_choice}
+         "choice": case_choice, "choicend": case_choicend}
 
 
 def _shape_chunks(rng, maxd=3, maxn=6):
@@ -718,3 +790,21 @@ def generate(ctx):
         chunks = list(U.rand_chunks_1d(rng, size)) if (replace or rng.random() < 0.45) else [size]
         yield "choice", {"api": rng.choice(["gen", "rs"]), "seed": rng.randint(0, 2 ** 31), "pop": pop, "size": size,
                          "chunks": chunks, "replace": replace}
+    for i in range(ctx.n(60, 600)):
+        size, chunks = _shape_chunks(rng, 3, 4)
+        while 0 in size:
+            size, chunks = _shape_chunks(rng, 3, 4)
+        replace = rng.random() < 0.3
+        if not replace:
+            r = rng.random()
+            if r < 0.5:
+                chunks = [[n] for n in size]
+            elif r < 0.8 and len(size) >= 2:
+                chunks = [[size[0]]] + [list(c) for c in chunks[1:]]  # first axis single, later axes free
+        tot = 1
+        for n in size:
+            tot *= n
+        pop = rng.choice([tot, tot + rng.randint(0, 4), rng.randint(1, 12)])
+        yield "choicend", {"api": rng.choice(["gen", "rs"]), "seed": rng.randint(0, 2 ** 31), "pop": max(1, pop),
+                           "size": None if (not size and rng.random() < 0.5) else list(size), "chunks": [list(c) for c in chunks],
+                           "replace": replace}
